@@ -439,15 +439,31 @@ def rule_fwdwalk(ctx, prop: str) -> RuleResult:
                 m3 = n
     m4 = pat.find("for _M_fn in reversed(_M_fs):\n    _M_v = _M_fn(_M_v)", f.node, b) if b is not None else None
     ret_ok = False
+    start_ok = False
     if m4 is not None:
-        v = m4[1]["_M_v"]
+        v = ast.unparse(m4[1]["_M_v"])
+
+        def derived(seed):
+            # names assigned (anywhere in the function) from an expression mentioning a derived name
+            out = set(seed)
+            grew = True
+            while grew:
+                grew = False
+                for n in f.body_nodes():
+                    if isinstance(n, ast.Assign) and len(n.targets) == 1 and isinstance(n.targets[0], ast.Name) and n.targets[0].id not in out:
+                        if any(isinstance(x, ast.Name) and x.id in out for x in ast.walk(n.value)):
+                            out.add(n.targets[0].id)
+                            grew = True
+            return out
+
+        from_v = derived({v})
         for n in f.body_nodes():
-            if isinstance(n, ast.Return) and n.value is not None and any(isinstance(x, ast.Name) and ast.unparse(x) == ast.unparse(v) for x in ast.walk(n.value)):
+            if isinstance(n, ast.Return) and n.value is not None and any(isinstance(x, ast.Name) and x.id in from_v for x in ast.walk(n.value)):
                 ret_ok = True
-        # the accumulator starts from the cursor handed in
-        start_ok = any(isinstance(n, ast.Assign) and ast.unparse(n.targets[0]) == ast.unparse(v) and "_impl" in ast.unparse(n.value) for n in f.body_nodes())
-    else:
-        start_ok = False
+        # the accumulator starts from the cursor handed in (the method's own parameter)
+        params = [a.arg for a in f.node.args.args if a.arg != "self"]
+        from_param = derived(set(params))
+        start_ok = v in from_param and v not in params
     checks = [
         ("collect", m1 is not None, "each procedure on the chain contributes its own _forward"),
         ("walk", m2 is not None, "the walk follows _provenance_eq_Procedure"),
